@@ -84,6 +84,18 @@ CLAIMED['C05'] = dict(
          "client's operation unfinished (C05-crash-inside-suggest-leaves-operation)."),
    note=SVC_NOTE + " Trusted: SQLite's atomic commit, SQLAlchemy events as crash points, os._exit as the crash; torn pages / fsync lies are below the model.",
    technique='Rocq proof (verified abstract interpreter over translator-generated transaction skeletons) + crash-point enumeration', design='5/C05')
+CLAIMED['C04'] = dict(
+   text=('Theorems for ANY number of concurrent calls and ANY schedule (closed under the global context): trial ids stay unique per study '
+         '(C04_unique_ids_all_interleavings: every datastore primitive preserves it); every handler obeys the lock discipline (operation '
+         'lock first, study/owner lock innermost, LIFO release, returns holding nothing: C04_lock_discipline) and therefore no reachable '
+         'configuration is deadlocked (C04_no_deadlock). The full serialisability statement is REFUTED on the model by a kernel-evaluated '
+         'schedule (C04_full_refuted: the study guard is evaluated before the lock) = known finding C04-guard-outside-lock; a general '
+         'serialisability theorem for the remaining call pairs is NOT proved: it is decided by exhaustive-per-pair / random schedule '
+         'exploration of real threads under a deterministic scheduler, compared with all serial orders of the real implementation (up to '
+         'renumbering of new trials) and with the model replayed on the same schedule. Two families of real races were found and repaired '
+         '(fix: commits).'),
+   note=SVC_NOTE + ' Scheduling points are datastore primitive calls and servicer-lock acquisitions; interleavings inside a datastore primitive, inside SQLite/gRPC and the GIL are not explored; at most 3 threads in the exploration (the theorems are unbounded).',
+   technique='Rocq proof (invariant over all interleavings; lock-order argument) + deterministic-scheduler exploration against serial orders', design='5/C04')
 ALL = ['C%02d' % i for i in range(1, 21)]
 m = {
  'version': 1,
